@@ -1,21 +1,19 @@
-//! Counting global allocator (C06).  Per-thread `Cell` counters with `const` initialisers, so
+//! Counting global allocator (C06).  Process-wide atomic counters (engines are single-threaded), so
 //! the counter itself never allocates.  An engine opts in with
 //! `#[global_allocator] static A: support::alloc::Counting = support::alloc::Counting;`
 
 use std::alloc::{GlobalAlloc, Layout, System};
-use std::cell::Cell;
+use std::sync::atomic::{AtomicU64, Ordering::Relaxed};
 
-thread_local! {
-    static CALLS: Cell<u64> = const { Cell::new(0) };
-    static BYTES: Cell<u64> = const { Cell::new(0) };
-}
+static CALLS: AtomicU64 = AtomicU64::new(0);
+static BYTES: AtomicU64 = AtomicU64::new(0);
 
 pub struct Counting;
 
 #[inline]
 fn bump(n: usize) {
-    let _ = CALLS.try_with(|c| c.set(c.get() + 1));
-    let _ = BYTES.try_with(|c| c.set(c.get() + n as u64));
+    CALLS.fetch_add(1, Relaxed);
+    BYTES.fetch_add(n as u64, Relaxed);
 }
 
 unsafe impl GlobalAlloc for Counting {
@@ -40,9 +38,9 @@ unsafe impl GlobalAlloc for Counting {
 /// Number of allocator calls (alloc, alloc_zeroed, realloc, dealloc) made by this thread so far.
 #[inline]
 pub fn calls() -> u64 {
-    CALLS.with(Cell::get)
+    CALLS.load(Relaxed)
 }
 #[inline]
 pub fn bytes() -> u64 {
-    BYTES.with(Cell::get)
+    BYTES.load(Relaxed)
 }
